@@ -35,7 +35,7 @@ class AbstractReader(object):
             filenames.append(mibname.lower())
 
         if self.fuzzyMatching:
-            part = filenames[-1].find('-mib')
+            part = mibname.lower().find('-mib')
             if part != -1:
                 filenames.extend(
                     [x[:part] for x in filenames]
